@@ -36,7 +36,7 @@ def one(sid):
 
 
 if __name__ == '__main__':
-    ids = sys.argv[1:] or sorted(os.listdir(os.path.join(VERIF, 'seeded')))
+    ids = sys.argv[1:] or sorted(d for d in os.listdir(os.path.join(VERIF, 'seeded')) if os.path.isdir(os.path.join(VERIF, 'seeded', d)))
     with ProcessPoolExecutor(max_workers=16) as ex:
         res = list(ex.map(one, ids))
     caught = 0
